@@ -117,6 +117,9 @@ def run(repo: Repo, chk: Check, thorough: bool = False) -> None:
     # ---- R01.1
     check_escapes(repo, chk, cg, esc, PHASE_ENTRIES, 'R01.1')
     chk.require('R01.1', 60)
+    chk.stats['separator_strip_idioms'] = sorted(esc.t9_instances)
+    if len(esc.t9_instances) < 2:
+        chk.error(f'T9: {len(esc.t9_instances)} separator-strip idiom(s) found (2 confirmed by reading: assembleList.commasep, ClassPage.baseName)')
     lit = [s for s in esc.sources if s.kind == 'T1' and 'literal_eval' in s.label]
     prs = [s for s in esc.sources if s.kind == 'T1' and ('ast.parse' in s.label or 'compile' in s.label)]
     chk.stats['T1_literal_eval_sites'] = len(lit)
